@@ -357,8 +357,8 @@ Proof.
   { eapply IH; try eassumption; [lia|]. right. exists src. split; [unfold src; lia|exact C]. }
   intro H. unfold lmc in H at 1. assert (in_rng src (nv s) = true) as R by (apply in_rng_true; lia). rewrite R in H. cbn [bind] in H.
   assert (Hl : 0 <= vc s src < 3 * f) by (destruct (w_lr _ _ _ _ HW _ Hsrc) as [Q|Q]; [congruence|exact Q]).
-  destruct (vcit_loop_ok (S (loop_fuel NC)) s (vc s src) (vc s src) true src iv f HW (or_intror Hl) Hl Hivr) as (V1 & V2).
-  destruct (vcit_loop NC (S (loop_fuel NC)) s (vc s src) (vc s src) true src iv) eqn:EV; cbn [bind] in H; try discriminate; [|exact (V1 eq_refl)].
+  destruct (vcit_loop_ok (vcit_fuel NC) s (vc s src) (vc s src) true src iv f HW (or_intror Hl) Hl Hivr) as (V1 & V2).
+  destruct (vcit_loop NC (vcit_fuel NC) s (vc s src) (vc s src) true src iv) eqn:EV; cbn [bind] in H; try discriminate; [|exact (V1 eq_refl)].
   destruct (V2 a eq_refl) as (HWa & SBa). unfold same_but_c2v in SBa. destruct SBa as (S1 & S2 & S3 & S4 & _).
   unfold lmc in H. rewrite S3, R in H. cbn [bind] in H.
   unfold set_lmc in H. destruct (iv =? -1) eqn:E1; [lia|]. rewrite S3 in H.
